@@ -1,7 +1,7 @@
 SPECIFICATION Spec
 CONSTANTS
   Alphabet <- MCAlphabet
-  MaxLen = 5
+  MaxLen = 4
   Emit = TRUE
 INVARIANTS TrimIdem TrimInvariant IntIsFloat IntIsVec BitIsBoth TokensClean Vec3IsVec FloatTableOk Vector
 CHECK_DEADLOCK FALSE
